@@ -68,6 +68,14 @@ def _legacy_reduce_case(rng):
             v['dtype'] = 'd'
     n = rng.choice([d[0] for d in spec['dims']])
     fn = rng.choice(LEGACY_FUNCS)
+    if rng.random() < 0.35:
+        # data variables whose names look like cell bounds without being among the coordinate keys the function treats
+        # specially (CF spells them time_bnds / lat_bnds; a lifetime may carry bounds too): reduced like any variable
+        pool = ['time_bnds', 'lat_bnds', 'lon_bnds', 'lifetime_bounds', 'x_bnds']
+        dimnames = {d[0] for d in spec['dims']}
+        for v in spec['vars']:
+            if v['name'] not in dimnames and v['dims'] and pool and rng.random() < 0.6:
+                v['name'] = pool.pop(rng.randrange(len(pool)))
     return dict(kind='reduce', spec=spec, fns=[[n, fn]], text='%s,%s' % (n, fn))
 
 
@@ -104,7 +112,18 @@ def _direct_case(rng):
     not the identity on one element; (disk) the string front end reduce_dim on a netCDF file on disk whose variables have
     missing values, whole fibres included; (derived) a file holding float variables derived from integer ones (eval, direct
     assignment) before applyAlongDimensions"""
-    k = rng.choice(['ioapi', 'ioapi', 'disk', 'derived', 'callable', 'prefixdim'])
+    k = rng.choice(['ioapi', 'ioapi', 'disk', 'derived', 'callable', 'prefixdim', 'repeatdim'])
+    if k == 'repeatdim':
+        # a variable that carries the named dimension on two axes (a covariance or transition matrix)
+        nx, nt = rng.randint(2, 4), rng.randint(2, 3)
+        shapes = [['x', 'x'], ['x', 't', 'x'], ['t', 'x'], ['t'], ['t', 't']]
+        dl = dict(x=nx, t=nt)
+        vs = [pfile._mkvar(rng, 'V%d' % i, vd, dl, i, False) for i, vd in enumerate(shapes)]
+        for v in vs:
+            v['dtype'] = 'd'
+        spec = dict(dims=[['t', nt, False], ['x', nx, False]], vars=vs, attrs=[])
+        return dict(kind='direct', sub='derived', fns=[], spec=spec, dim=rng.choice(['x', 'x', 't']),
+                    fn=rng.choice(['rev', 'cumsum', 'sum', 'max', 'min', 'mean']), how='eval')
     if k in ('callable', 'prefixdim'):
         # callable: 1-D functions that use the whole fibre (anomaly, normalisation, the two largest values, a same-length
         # running mean); prefixdim: the string front end on a file where another dimension's name begins with the named one
@@ -218,6 +237,24 @@ def _impl_direct(case):
             os.remove(path)
 
 
+def _along(arr, ax, fn):
+    """numpy's answer for one axis"""
+    from . import c10
+    with np.errstate(all='ignore'):
+        if fn in NP_REDUCERS:
+            return getattr(np.ma, fn)(arr, axis=ax, keepdims=True)
+        if fn in FIBREFN:
+            return np.apply_along_axis(FIBREFN[fn], ax, np.ma.getdata(arr))
+        f_ = c10.FNS.get(fn) or PYFN[fn]
+        m = np.ma.getmaskarray(arr)
+        if fn == 'diff':
+            # a difference is missing when either neighbour is
+            return np.ma.masked_array(np.diff(np.ma.getdata(arr), axis=ax), mask=np.logical_or(
+                np.take(m, range(1, m.shape[ax]), axis=ax), np.take(m, range(0, m.shape[ax] - 1), axis=ax)))
+        # selections (first two, reversed): the same selection of the mask
+        return np.ma.masked_array(np.apply_along_axis(f_, ax, np.ma.getdata(arr)), mask=np.apply_along_axis(f_, ax, m))
+
+
 def _oracle_direct(case, res):
     if res.get('skip'):
         return None
@@ -239,27 +276,13 @@ def _oracle_direct(case, res):
         a = res['after'][k]
         arr = np.ma.masked_array(np.array(b['data'], dtype='d').reshape(b['shape']), mask=np.array(b['mask'], dtype=bool).reshape(b['shape']))
         if dim in b['dims']:
-            ax = b['dims'].index(dim)
-            if b['shape'][ax] == 0:
+            if any(b['shape'][ax] == 0 for ax, dn in enumerate(b['dims']) if dn == dim) or (
+                    fn == 'diff' and b['shape'][b['dims'].index(dim)] < 2):
                 continue
-            with np.errstate(all='ignore'):
-                if fn in NP_REDUCERS:
-                    want = getattr(np.ma, fn)(arr, axis=ax, keepdims=True)
-                elif fn in FIBREFN:
-                    want = np.apply_along_axis(FIBREFN[fn], ax, np.ma.getdata(arr))
-                else:
-                    f_ = c10.FNS.get(fn) or PYFN[fn]
-                    m = np.ma.getmaskarray(arr)
-                    if fn == 'diff':
-                        if b['shape'][ax] < 2:
-                            continue
-                        # a difference is missing when either neighbour is
-                        want = np.ma.masked_array(np.diff(np.ma.getdata(arr), axis=ax), mask=np.logical_or(
-                            np.take(m, range(1, m.shape[ax]), axis=ax), np.take(m, range(0, m.shape[ax] - 1), axis=ax)))
-                    else:
-                        # selections (first two, reversed): the same selection of the mask
-                        want = np.ma.masked_array(np.apply_along_axis(f_, ax, np.ma.getdata(arr)),
-                                                  mask=np.apply_along_axis(f_, ax, m))
+            want = arr
+            # every axis that carries the dimension (a covariance matrix COV(x, x) has two), last axis first
+            for ax in [i for i, dn in enumerate(b['dims']) if dn == dim][::-1]:
+                want = _along(want, ax, fn)
         else:
             want = arr
         wm = np.ma.getmaskarray(want).ravel()
